@@ -160,6 +160,46 @@ pub fn run(ctx: &Ctx) -> (Stats, Report) {
                         }
                     }
                 }
+                // intervals derived from the time itself: its own value and its complement to
+                // midnight, with whole days added and with either sign - equal times of day in both
+                // operands (sums and differences of exactly 0 / 24 h, comparisons that differ only in
+                // the day field or the sign)
+                let dd = US_PER_DAY as i64;
+                for days in [0i64, 1, 3, 1000, 99_999_998] {
+                    for base in [t, dd - t] {
+                        for iv in [base + days * dd, -(base + days * dd)] {
+                            st.evaluations += 3;
+                            st.nontrivial_enum += 3;
+                            st.class("interval-derived-from-the-time-itself");
+                            for sub in [false, true] {
+                                if let Err(m) = check_addsub(t, iv, sub) {
+                                    st.fail(sec, Case::new(P, "addsub", vec![t as i128, iv as i128, sub as i128], vec![]), m);
+                                    return;
+                                }
+                            }
+                            if let Err(m) = check_cmp(t, iv) {
+                                st.fail(sec, Case::new(P, "cmp", vec![t as i128, iv as i128], vec![]), m);
+                                return;
+                            }
+                        }
+                    }
+                }
+                // the distance to the next / previous second, minute and hour boundary (+-1 us): small
+                // intervals that carry or borrow through one, two or three clock fields
+                for unit in [1_000_000i64, 60_000_000, 3_600_000_000] {
+                    let r = t % unit;
+                    for iv in [unit - r - 1, unit - r, unit - r + 1, -r - 1, -r, -r + 1] {
+                        st.evaluations += 2;
+                        st.nontrivial_enum += 2;
+                        st.class("interval-reaching-the-next-or-previous-clock-field-boundary");
+                        for sub in [false, true] {
+                            if let Err(m) = check_addsub(t, iv, sub) {
+                                st.fail(sec, Case::new(P, "addsub", vec![t as i128, iv as i128, sub as i128], vec![]), m);
+                                return;
+                            }
+                        }
+                    }
+                }
                 // comparisons against the interval equal / adjacent to the time itself
                 for d in [-1i64, 0, 1] {
                     st.evaluations += 1;
@@ -234,7 +274,7 @@ pub fn run(ctx: &Ctx) -> (Stats, Report) {
     st.section("sub_time_and_conversions", &mut mark);
 
     let rep = Report {
-        rule: "Every second of the day x {0, 1, 999999} us x boundary intervals (0, +-1us, +-(1 day -+ 1us), whole days, half days, +-range limit and neighbours) x add/sub, plus proptest-generated (time, interval) pairs with shrinking; sub_time on a time pool x pool; Time::from(interval) / IntervalDT::from(time) on an interval pool; Time<->IntervalDT comparisons in both argument orders. Oracle: i128 (t +- i) rem_euclid 86400e6, exact difference, |i| mod day, comparison of the raw counts. Non-trivial = t +- i falls outside [0, day), the interval is a multiple of a day, or it sits at a range limit; negative or >= 1 day for conversions.".into(),
+        rule: "Every second of the day x {0, 1, 999999} us x boundary intervals (0, +-1us, +-(1 day -+ 1us), whole days, half days, +-range limit and neighbours) x add/sub, and intervals derived from the time itself (its own value and its complement to midnight, plus 0 / 1 / 3 / 1000 / 99,999,998 whole days, both signs) x add / sub / every comparison, the distances to the next / previous second, minute and hour boundary +-1 us, plus proptest-generated (time, interval) pairs with shrinking; sub_time on a time pool x pool; Time::from(interval) / IntervalDT::from(time) on an interval pool; Time<->IntervalDT comparisons in both argument orders. Oracle: i128 (t +- i) rem_euclid 86400e6, exact difference, |i| mod day, comparison of the raw counts. Non-trivial = t +- i falls outside [0, day), the interval is a multiple of a day, or it sits at a range limit; negative or >= 1 day for conversions.".into(),
         assumptions: vec![],
         exhaustive: false,
         extra: Default::default(),
